@@ -3,27 +3,42 @@
    global rules in declaration order, then ordinary rules in declaration order. *)
 From Boreal Require Import Base.Prelude Base.Res Model.Eval Spec.CondSem Model.EvalCost Model.Scanner.
 
-(* own condition of each rule, in the order globals ++ ordinary, given the per-variable matches
-   (variables of global rules first) *)
-Fixpoint owns (inp : inputs) (ms : list (list smatch)) (prev : list bool) (rs : list rule) (track_prev : bool)
+(* own condition of each global rule (global rules see no rule results), given the per-variable
+   matches (variables of global rules first) *)
+Fixpoint gowns (inp : inputs) (ms : list (list smatch)) (gs : list rule) : list bool :=
+  match gs with
+  | [] => []
+  | g :: rest =>
+      let q := {| q_matches := firstn (r_nvars g) ms; q_prev := []; q_ext := i_ext inp;
+                  q_filesize := i_filesize inp; q_mem := i_mem inp |} in
+      sem_rule q (r_cond g) :: gowns inp (skipn (r_nvars g) ms) rest
+  end.
+
+Definition nvars_of (rs : list rule) : nat := fold_right (fun r n => (r_nvars r + n)%nat) 0%nat rs.
+
+(* every global rule of the namespace holds *)
+Definition ns_ok (gs : list rule) (gown : list bool) (ns : nat) : bool :=
+  forallb (fun gb => negb (Nat.eqb (r_ns (fst gb)) ns) || snd gb) (combine gs gown).
+
+(* verdict of each ordinary rule: its namespace is not disabled and its own condition holds, where a
+   reference to an earlier ordinary rule sees that rule's verdict *)
+Fixpoint rverdicts (inp : inputs) (ok : nat -> bool) (ms : list (list smatch)) (prev : list bool) (rs : list rule)
   : list bool :=
   match rs with
   | [] => []
   | r :: rest =>
       let q := {| q_matches := firstn (r_nvars r) ms; q_prev := prev; q_ext := i_ext inp;
                   q_filesize := i_filesize inp; q_mem := i_mem inp |} in
-      let b := sem_rule q (r_cond r) in
-      b :: owns inp (skipn (r_nvars r) ms) (if track_prev then prev ++ [b] else prev) rest track_prev
+      let b := ok (r_ns r) && sem_rule q (r_cond r) in
+      b :: rverdicts inp ok (skipn (r_nvars r) ms) (prev ++ [b]) rest
   end.
 
-Definition nvars_of (rs : list rule) : nat := fold_right (fun r n => (r_nvars r + n)%nat) 0%nat rs.
-
 Definition spec_verdicts (sc : scanner) (inp : inputs) : list (rule * bool) :=
-  let gown := owns inp (i_matches inp) [] (s_globals sc) false in
-  let rown := owns inp (skipn (nvars_of (s_globals sc)) (i_matches inp)) [] (s_rules sc) true in
-  let ns_ok (ns : nat) :=
-    forallb (fun gb => negb (Nat.eqb (r_ns (fst gb)) ns) || snd gb) (combine (s_globals sc) gown) in
-  map (fun rb => (fst rb, snd rb && ns_ok (r_ns (fst rb)))) (combine (s_globals sc) gown ++ combine (s_rules sc) rown).
+  let gown := gowns inp (i_matches inp) (s_globals sc) in
+  let ok := ns_ok (s_globals sc) gown in
+  combine (s_globals sc) (map (fun gb => snd gb && ok (r_ns (fst gb))) (combine (s_globals sc) gown))
+  ++ combine (s_rules sc)
+             (rverdicts inp ok (skipn (nvars_of (s_globals sc)) (i_matches inp)) [] (s_rules sc)).
 
 Definition spec_reported (sc : scanner) (inp : inputs) (nm : bool) : list erule :=
   map (fun rb => {| er_id := r_id (fst rb); er_ns := r_ns (fst rb); er_matched := snd rb |})
